@@ -174,8 +174,8 @@ func ZZVerif_C01_AppendBMC() {
 }
 
 // ZZVerif_C08_UpdatableBMC: K upserts at arbitrary positions 0..3 of the updatable tree (in new blocks or further down the same
-// block), restart possible before each. For every
-// recorded root j and every position i: GetLeaf(i, root_j) is the value last written at i as of j (zero if never written)
+// block), restart possible before each; with ABORT, the last one may be preceded by a rolled-back transaction that had written
+// another value. For every recorded root j and every position i: GetLeaf(i, root_j) is the value last written at i as of j (zero if never written)
 // and, when the position was written, the proof returned for (i, root_j) hashes with that leaf to root_j.
 func ZZVerif_C08_UpdatableBMC() {
 	database := zzOpenTreeDB()
@@ -204,6 +204,24 @@ func ZZVerif_C08_UpdatableBMC() {
 		for q := 0; q < s; q++ {
 			// values are fresh: the tree never returns to a configuration it had before (see known finding C11-1)
 			zzverif.Assume(v != hist[q][0] && v != hist[q][1] && v != hist[q][2] && v != hist[q][3])
+		}
+		if ab := zzverif.Param("ABORT"); ab != 0 && s == k-1 && zzverif.Bool("abortedFirst") {
+			// a transaction that wrote another value somewhere and was rolled back (the block failed further on and is retried)
+			txa, err := db.NewTx(ctx, database)
+			zzverif.Assert("begin", err == nil)
+			av := common.Hash(zzverif.Hash("abortedVal"))
+			zzverif.Assume(av != common.Hash{} && av != v)
+			for q := 0; q < s; q++ { // fresh as well (see known finding C11-1)
+				zzverif.Assume(av != hist[q][0] && av != hist[q][1] && av != hist[q][2] && av != hist[q][3])
+			}
+			apos := (pos + 1) % 4 // ABORT=1: a neighbouring position; ABORT=2: any position
+			if ab == 2 {
+				apos = uint32(zzverif.Int("abortedPos", 0, 3))
+			}
+			_, err = t.UpsertLeaf(txa, blk, bpos, types.Leaf{Index: apos, Hash: av})
+			zzverif.Assert("UpsertLeaf succeeds (transaction rolled back afterwards)", err == nil)
+			zzverif.Assert("rollback", txa.Rollback() == nil)
+			zzverif.Reach("aborted")
 		}
 		tx, err := db.NewTx(ctx, database)
 		zzverif.Assert("begin", err == nil)
